@@ -24,7 +24,45 @@ import re as _re
 _PROMOTED_RX = _re.compile(r'promoted\[(\d+)\]$')
 PROMOTED = {}          # def path of a promoted body -> Body (filled by core.Facts)
 BODIES = {}            # def path -> Body of every workspace body (filled by core.Facts); used for opt-in inlining
+CLOSURE_FIELDS = {}    # closure def path -> {capture field name: index into the captures tuple}
 _PROMOTED_CACHE = {}
+
+
+def closure_fields(defp):
+    """capture field names of a closure body (from the projections through its environment argument)"""
+    if defp in CLOSURE_FIELDS:
+        return CLOSURE_FIELDS[defp]
+    out = {}
+    b = BODIES.get(defp)
+    if b is not None:
+        import json as _json
+
+        def walk(x):
+            if isinstance(x, dict):
+                if 'n' in x and 'f' in x and str(x.get('adt', '')).startswith('closure:'):
+                    out[x['n']] = x['f']
+                for v in x.values():
+                    walk(v)
+            elif isinstance(x, list):
+                for v in x:
+                    walk(v)
+        walk(b.blocks)
+    CLOSURE_FIELDS[defp] = out
+    return out
+
+
+def apply_closure(clo, args, **kw):
+    """paths of a closure body with its environment bound to the closure term and its parameters to `args`"""
+    clo = strip(clo)
+    if clo[0] != 'closure':
+        return None
+    b = BODIES.get(clo[1])
+    if b is None:
+        return None
+    bind = {1: clo}
+    for i, a in enumerate(args):
+        bind[2 + i] = a
+    return SymEx(b, bind=bind, **kw).run()
 
 
 def promoted_value(body, idx):
@@ -233,6 +271,10 @@ def project(t, p):
             return project(t[1], 'Some.0')
         if p == 'Break.0':
             return ('residual_none',)
+    if t[0] == 'closure' and isinstance(p, str) and p.startswith('^'):
+        idx = closure_fields(t[1]).get(p[1:])
+        if idx is not None and idx < len(t[2]):
+            return t[2][idx]
     if t[0] == 'tuple':
         try:
             return t[1][int(p)]
@@ -298,13 +340,14 @@ class Path:
 
 
 class SymEx:
-    def __init__(self, body, max_visits=2, max_paths=4000, follow_diverge=False, havoc_loops=False, inline=None, max_inline_depth=3):
+    def __init__(self, body, max_visits=2, max_paths=4000, follow_diverge=False, havoc_loops=False, inline=None, max_inline_depth=3, bind=None):
         self.body = body
         self.havoc_loops = havoc_loops
         self.loops = find_loops(body) if havoc_loops else {}
         self._loops_of = {body.defp: self.loops}
         self.inline = inline                  # callable(callee Body, Call) -> bool: execute the callee's body in place
         self.max_inline_depth = max_inline_depth
+        self.bind = bind or {}
         self.max_visits = max_visits
         self.max_paths = max_paths
         self.follow_diverge = follow_diverge
@@ -416,6 +459,8 @@ class SymEx:
     # ---- driver
     def run(self):
         st = State(self.body)
+        for l, term in self.bind.items():
+            st.write(('local', l), (), term)
         self._go(st, 0)
         return self.paths
 
